@@ -58,3 +58,28 @@ Fixpoint trace (w : ws) (ops : list op) : list (outcome * (list memrow * filedum
   | [] => []
   | o :: r => let '(w', oc) := step w o in (oc, observe w') :: trace w' r
   end.
+
+(* ---------------- two workspaces ---------------- *)
+Definition wobs : Type := (outcome * (list memrow * filedump) * (list memrow * filedump))%type.
+
+Definition side_ok (w : ws) (o : list memrow * filedump) : bool :=
+  list_eqb memrow_eqb (dump_mem rootkey (wmem w)) (fst o) && filedump_eqb (dump_file (wfile w)) (snd o).
+
+Fixpoint wcheck_from (W : world) (ops : list wop) (exp : list wobs) : bool :=
+  match ops, exp with
+  | [], [] => true
+  | o :: ops', (oc, oa, ob) :: exp' =>
+      let '(W', oc') := wstep W o in
+      outcome_eqb oc oc' && side_ok (wa W') oa && side_ok (wb W') ob && wcheck_from W' ops' exp'
+  | _, _ => false
+  end.
+Definition check_world (ops : list wop) (exp : list wobs) : bool := wcheck_from winit ops exp.
+
+Fixpoint wfirst_bad (W : world) (ops : list wop) (exp : list wobs) (i : N) : option N :=
+  match ops, exp with
+  | [], [] => None
+  | o :: ops', (oc, oa, ob) :: exp' =>
+      let '(W', oc') := wstep W o in
+      if outcome_eqb oc oc' && side_ok (wa W') oa && side_ok (wb W') ob then wfirst_bad W' ops' exp' (N.succ i) else Some i
+  | _, _ => Some i
+  end.
